@@ -3,6 +3,7 @@ import Sylvia.Model.Lex
 import Sylvia.Model.Casing
 import Sylvia.Driver.Util
 import Sylvia.Driver.Ops
+import Sylvia.Driver.MtOps
 /-! `svmodel`: one operation per input line, one canonical line of output per operation.
 The same operation files are fed to the Rust harnesses; the streams are diffed by ./check. -/
 open Driver
@@ -34,6 +35,11 @@ partial def loop (h : IO.FS.Stream) (out : IO.FS.Stream) (st : State) : IO Unit 
   let line ← h.getLine
   if line.isEmpty then return ()
   let l := if line.endsWith "\n" then (line.dropEnd 1).toString else line
+  let (op, rest) := splitOp l
+  if op == "mtp" then out.putStrLn (Driver.opMtp st rest); loop h out st
+  else if op == "mtr" then out.putStrLn (Driver.opMtr st rest); loop h out st
+  else if op == "mtlower" then out.putStrLn (Driver.opMtlower st rest); loop h out st
+  else
   match step st l with
   | (st', some r) => out.putStrLn r; loop h out st'
   | (st', none) => out.putStrLn (handle l); loop h out st'
